@@ -220,6 +220,11 @@ func cmdCheck(args []string) int {
 				idx = append(idx, i)
 			}
 		}
+		if len(idx) > 16 {
+			// many undecided obligations at once (a changed function): the long retry of
+			// the first few is enough to separate solver jitter from a broken proof
+			idx = idx[:16]
+		}
 		var wg sync.WaitGroup
 		sem := make(chan struct{}, workers)
 		for _, i := range idx {
